@@ -195,6 +195,8 @@ pub fn f_struct(n: usize) -> Vec<Root> {
 pub fn seeds_cfg(prop: &'static str, n: usize, prios: &[i32], alphabet: u32) -> Cfg {
     let mut c = base_cfg(prop, n as u32 + 1, prios, alphabet);
     c.root_vec_len = 0;
+    // deep receivers use the structured family of appended queues (incl. a longer clashing one)
+    c.append_max = 2;
     c
 }
 
